@@ -349,6 +349,12 @@ def r14g(F):
 		# everything merged is merged before the sort: chain(..) calls precede it
 		ch = set(fu.call_blocks(lambda p: p.endswith('Iterator::chain')))
 		pre = all(fu.reach_back([b]) & ch for b in srt) if ch else False
+		# ... in EVERY arm that merges: no path from a chain(..) to the end of the writer avoids the sort (Receive and BlindedReceive
+		# arms are siblings; a sort kept in one of them must not hide its absence in the other)
+		rets = {bi for bi, b in enumerate(fu.blocks) if b['t'][1] == 'ret'}
+		unsorted = sorted({fu.line_of(c) for c in ch if fu.path([c], rets, removed_blocks=set(srt)) is not None})
+		if unsorted:
+			out.append(Result('14.g', False, 'order:merge-without-sort@' + label, '%s::write: the TLV list merged at line(s) %s reaches the encoder without being sorted on some path (arm-wise: each arm that chains custom / keysend / invoice_request TLVs sorts its own list) - a custom TLV above the reserved type is written out of order and the recipient rejects the payload' % (label, unsorted), len(ch), where=F.where(wfn, unsorted[0])))
 		ok = not bad and pre
 		out.append(Result('14.g', ok, ('ok:' if ok else 'order:') + 'sorted-last@' + label, '%s::write: custom, keysend and invoice_request TLVs are chained first and the list is sorted last (%d sort call(s))%s' % (label, len(srt), '' if ok else '; list grows after the sort at line(s) %s or nothing is chained before it: records would be written out of order and the recipient rejects the payload' % bad), len(srt) + len(ch), where=F.where(wfn)))
 	return out
@@ -437,6 +443,33 @@ def r14j(F):
 		out.append(Result('14.j', False, 'anchor:fail-reason-getters', 'the getter closures of the HTLCFailReasonRepr writer were not found (%d)' % len(out), len(out)))
 	return out
 
+def r14k(F):
+	"""fulfil attribution data of a payment received through a phantom node: the phantom hop's layer is the innermost one (built from
+	nothing with the phantom secret), the real node's incoming_packet_shared_secret wraps it. The sender peels the real node's layer
+	first; with the layers the other way round the first HMAC check fails and no hop's hold time is reported."""
+	fn = 'lightning::ln::channelmanager::ChannelManager::claim_payment_internal'
+	out = []
+	calls = []
+	for n in F.family(fn):
+		fu = F.func(n)
+		ex = Expr(fu)
+		for b, ci in fu.calls():
+			if norm(ci.get('f') or '').endswith('process_fulfill_attribution_data') and len(ci['args']) >= 2:
+				a0 = ex.of_operand(ci['args'][0])
+				sec = expr_str(ex.of_operand(ci['args'][1]))
+				calls.append((n, fu.line_of(b), a0, sec))
+	ph = [c for c in calls if 'phantom_shared_secret' in c[3]]
+	inc = [c for c in calls if 'incoming_packet_shared_secret' in c[3]]
+	if not ph or not inc:
+		return [Result('14.k', False, 'anchor:fulfill-attribution-layers', 'claim_payment_internal: expected process_fulfill_attribution_data calls with the phantom secret and with incoming_packet_shared_secret, found %d / %d' % (len(ph), len(inc)), where=F.where(fn))]
+	def is_none(e):
+		return e[0] == 'agg' and e[2] == 'None'
+	ok1 = all(is_none(c[2]) for c in ph)
+	ok2 = all(not is_none(c[2]) and 'incoming_packet_shared_secret' not in expr_str(c[2]) for c in inc)
+	out.append(Result('14.k', ok1, ('ok:' if ok1 else 'order:') + 'phantom-layer-innermost', 'claim_payment_internal: the attribution layer made with the phantom secret starts from %s (expected: from nothing - it is the innermost layer)' % [expr_str(c[2])[:80] for c in ph], len(ph), where=None if ok1 else F.where(ph[0][0], ph[0][1])))
+	out.append(Result('14.k', ok2, ('ok:' if ok2 else 'order:') + 'incoming-secret-layer-outermost', 'claim_payment_internal: the layer made with incoming_packet_shared_secret wraps %s (expected: the possibly present phantom layer, i.e. it is applied last)' % [expr_str(c[2])[:80] for c in inc], len(inc), where=None if ok2 else F.where(inc[0][0], inc[0][1])))
+	return out
+
 RULES = [
 	('14.j', 'persisted failures keep their attribution data (writer getters of HTLCFailReasonRepr select on the variant only)', r14j),
 	('14.i', 'failure parsing: the channel_update length / body offsets follow the code-specific debug field', r14i),
@@ -450,4 +483,6 @@ RULES = [
 	('14.e', 'failures: blame only behind the hop HMAC; build then encrypt; key derivation per purpose', r14e),
 	('14.p', 'same-name field transfer: structs carrying this property\'s quantities are filled from the same-named field or a reviewed alias (rules/provenance.py)', lambda F: provenance.for_property(F, 'C14', '14.p')),
 	('14.q', 'no call hands a value named like one parameter of the callee to a different parameter (swapped type-compatible arguments; rules/provenance.py)', lambda F: provenance.swaps_for_property(F, 'C14', '14.q')),
+	('14.k', 'fulfil attribution data through a phantom node: phantom layer innermost, real node\'s layer outermost', r14k),
+	('14.w', 'no length / count is added to or multiplied in an 8/16-bit type and widened afterwards (wrap-around at the top of the range; rules/provenance.py)', lambda F: provenance.narrow_for_property(F, 'C14', '14.w')),
 ]
